@@ -52,6 +52,14 @@ def gen_case(r, cid, tier):
                 {'op': 'new', 'i': 1, 'all': False}, {'op': 'addconn', 'i': 1, 'proto': p, 'ps': {'all': False, 'ranges': [], 'named': [nm]}},
                 {'op': 'sub', 'i': 0, 'j': 1}, {'op': 'union', 'i': 0, 'j': 1}, {'op': 'isall', 'i': 0}, {'op': 'string', 'i': 0}]
         fresh.update([0, 1])
+    if r.random() < 0.2:
+        # aliasing: the full set intersected with a set must not share that set's port sets - updating the result afterwards must
+        # leave the operand alone (the whole pool is compared after every step)
+        p = r.choice(PROTOS)
+        ops += [{'op': 'new', 'i': 0, 'all': True}, {'op': 'new', 'i': 1, 'all': False}, {'op': 'addconn', 'i': 1, 'proto': p, 'ps': {'all': False, 'ranges': [[80, 90]], 'named': []}},
+                {'op': 'inter', 'i': 0, 'j': 1}, {'op': 'addconn', 'i': 0, 'proto': p, 'ps': {'all': False, 'ranges': [[443, 443]], 'named': []}},
+                {'op': 'string', 'i': 1}, {'op': 'equal', 'i': 0, 'j': 1}]
+        fresh.discard(0); fresh.add(1)
     for _ in range(length):
         x = r.random()
         i = r.randrange(n)
